@@ -9,18 +9,18 @@ CONSTANTS
   IDPAIRS <- c_IDPAIRS
   STAKERS = {"s1", "s2"}
   PREC = 100
-  DEVIATIONS = {}
+  DEVIATIONS = {"TX"}
   EXTRAS = {0}
   TAXES = {2, 100}
-  REWARDS = {5}
-  FEES = {0, 1, 7, 100}
+  REWARDS = {0, 5}
+  FEES = {0, 100}
   PATHS = {"bank"}
-  BURNS = {1}
+  BURNS = {}
   DELAMTS = {1}
   MAXDEL = 1
   MAXUPD = 0
   MAXJAIL = 1
-  MAXEPOCHS = 4
+  MAXEPOCHS = 3
   MAXOPS = 5
   GENSUPPLY = 10
 VIEW View
